@@ -11,6 +11,7 @@ From Coq Require Import List ZArith Bool.
 From SVC Require Import Base.AMap Model.Types Model.Handlers Model.EndBlock Model.Step
   Proofs.Inv Proofs.CtxOps Proofs.C16Proofs.
 From SVC Require Import Proofs.StepSpecs_ctx Proofs.GapC16.
+From SVC Require Import Model.ParamStep Proofs.ParamChange Proofs.ReachPProps.
 Import ListNotations.
 Open Scope Z_scope.
 
@@ -192,3 +193,47 @@ Theorem C16_K3_records_left_refuted :
            get (rid_ctx r) (expq_h s') = None /\ get (rid_ctx r) (newq_h s') = None /\ ~ I_req s'.
 Proof. exact K3.K3_records_left_refuted. Qed.
 Print Assumptions C16_K3_records_left_refuted.
+
+(* ---- governance parameter changes inside a history (Model/ParamStep.v, Proofs/ParamChange.v,
+   Proofs/ReachPProps.v) ----
+   The state-invariant statements above, with `wf_cfg cfg -> Reach cfg s` (parameters fixed along
+   the history) replaced by `ReachP cfg s`: initial state; operations under the parameters in
+   force; changes to a well-formed parameter set that does not raise the minimum-deposit terms
+   nor lower the maximum request timeout (tax, slash fraction, arbitration and complaint periods
+   change freely).  cfg is the parameter set in force in s.  Same conclusions. *)
+
+Theorem C16_no_orphans_param_changes :
+  forall cfg s, ReachP cfg s ->
+  (forall r q, In (r, q) (reqs s) ->
+     exists rc, get (rid_ctx r) (ctxs s) = Some rc /\ rid_batch r = c_counter rc
+       /\ get (rid_ctx r) (expq_h s) = Some (r_exp q)
+       /\ In (r_exp q, rid_ctx r) (expq s))
+  /\ (forall r x, In (r, x) (resps s) ->
+        exists q, get r (reqs s) = Some q /\ r_active q = false)
+  /\ (forall c r, get c (expq_h s) = None -> rid_ctx r = c ->
+        get r (reqs s) = None /\ get r (resps s) = None)
+  /\ (forall h c, In (h, c) (expq s) \/ In (h, c) (newq s) -> has c (ctxs s) = true)
+  /\ (forall c, has c (expq_h s) = true \/ has c (newq_h s) = true -> has c (ctxs s) = true).
+Proof. exact ReachPProps.no_orphans_P. Qed.
+Print Assumptions C16_no_orphans_param_changes.
+
+Theorem C16_request_records_sound_param_changes :
+  forall cfg s, ReachP cfg s ->
+  (forall r q, get r (reqs s) = Some q ->
+     exists rc, get (rid_ctx r) (ctxs s) = Some rc
+       /\ rid_batch r = c_counter rc
+       /\ get (rid_ctx r) (expq_h s) = Some (r_exp q)
+       /\ 0 <= r_fee q /\ 0 <= rid_index r < c_breq rc /\ rid_height r < r_exp q
+       /\ has (r_prov q) (owner_of s) = true
+       /\ has (c_svc rc, r_prov q) (binds s) = true
+       /\ (c_super rc = true -> r_fee q = 0))
+  /\ (forall r x, get r (resps s) = Some x ->
+        exists q, get r (reqs s) = Some q /\ r_active q = false)
+  /\ (forall c rc, get c (ctxs s) = Some rc ->
+        0 <= c_bresp rc <= c_breq rc
+        /\ msum (active_in c) (reqs s)
+           = (if has c (expq_h s) && negb (c_bdone rc) then c_breq rc - c_bresp rc else 0)
+        /\ (has c (expq_h s) = true -> c_bdone rc = true -> 1 <= c_breq rc /\ c_bresp rc = c_breq rc)
+        /\ (has c (expq_h s) = false -> c_bdone rc = true)).
+Proof. exact ReachPProps.request_records_sound_P. Qed.
+Print Assumptions C16_request_records_sound_param_changes.
